@@ -387,8 +387,9 @@ def dependency_closure(ctx: Ctx) -> None:
     from ..engines.structure import misc_hazard_rules
     misc_hazard_rules(sub, reach | set(roots))
     check_tables_immutable(sub, "IMMUT")
-    from ..engines.structure import process_state_rule, undefined_name_rule
+    from ..engines.structure import process_state_rule, undefined_name_rule, derived_state_rule
     process_state_rule(sub, "MEMO")
+    derived_state_rule(sub, "DERIVED")
     undefined_name_rule(sub, reach | set(roots))
     from ..engines.structure import param_rebind_rule, identity_rule
     param_rebind_rule(sub, reach | set(roots))
@@ -425,7 +426,7 @@ def dependency_closure(ctx: Ctx) -> None:
                                        "generic_hazard_rules": HAZARD_RULES}
 
 
-HAZARD_RULES = ["ITERMUT", "MUTDEFAULT", "IMMUT", "LAZY", "REACH", "TRUTHY", "OBJTRUTH", "NONETRUTH", "EXCEPT", "SETORDER", "CLASSATTR", "MEMO", "UNDEF", "REBIND", "IDENT", "DEFCHAN"]
+HAZARD_RULES = ["ITERMUT", "MUTDEFAULT", "IMMUT", "LAZY", "REACH", "TRUTHY", "OBJTRUTH", "NONETRUTH", "EXCEPT", "SETORDER", "CLASSATTR", "MEMO", "DERIVED", "UNDEF", "REBIND", "IDENT", "DEFCHAN"]
 
 
 def run_property(ctx: Ctx) -> None:
